@@ -177,18 +177,22 @@ PLANS = {
         mc=[mc("MC_Builds", "MC_Builds.cfg", workers=6), mc("MC_Builds", "NC_Builds_fragno.cfg", expect="Equiv"),
             mc("MC_Parser", "MC_Parser_cap.cfg", workers=6)],
         builds=ALL3,
-        families=[fam("capacity", F.fam_capacity), fam("randmsg", F.fam_random_messages, builds=("none", "alloc")),
-                  fam("textsmall", F.fam_text_small),
-                  fam("frag", F.fam_frag, twin_merge=E.tag_twin_merge, builds=("none", "alloc")),
+        families=[fam("capacity", F.fam_capacity, builds=("std", "none")), fam("randmsg", F.fam_random_messages, builds=("none",)),
+                  fam("textsmall", F.fam_text_small, builds=("none",)),
+                  fam("frag", F.fam_frag, twin_merge=E.tag_twin_merge, builds=("none",)),
                   fam("text", F.fam_text, builds=("none",), tier="thorough"),
-                  fam("varlen", F.fam_varlen, builds=("none", "alloc"))],
+                  fam("varlen", F.fam_varlen, builds=("none",)),
+                  # the alloc build: validated in full in the thorough tier, paired with std operation by operation always
+                  fam("randmsg", F.fam_random_messages, builds=("alloc",), tier="thorough"),
+                  fam("varlen", F.fam_varlen, builds=("alloc",), tier="thorough"),
+                  fam("frag", F.fam_frag, twin_merge=E.tag_twin_merge, builds=("alloc",), tier="thorough")],
         custom=[dict(run=cross(F.fam_capacity, "capacity")), dict(run=cross(F.fam_random_messages, "randmsg")),
-                dict(run=cross(F.fam_text_small, "textsmall")),
+                dict(run=cross(F.fam_text_small, "textsmall")), dict(run=cross(F.fam_varlen, "varlen")),
                 dict(run=cross(F.fam_text_small, "textsmall", "none")), dict(run=cross(F.fam_random_messages, "randmsg", "none")),
                 dict(run=cross(F.fam_capacity, "capacity", "none")), dict(run=cross(F.fam_totality, "totality", "none")),
                 dict(run=cross(F.fam_seq, "seq", "none")),
                 dict(run=cross(F.fam_seq, "seq")), dict(run=cross(F.fam_grammar, "grammar")),
-                dict(run=walk_none), dict(run=walk_alloc)],
+                dict(run=walk_none), dict(run=walk_alloc, tier="thorough")],
         rule="Equiv over all histories of the three lock-step builds (negative control: number advanced before the append); each "
              "build validated against the specification with its own capacities; std and alloc observations zipped and compared "
              "operation by operation; capacity boundaries 383/384/385 bytes, 118/119/120 data bytes, 19/20/21 characters"),
